@@ -122,3 +122,34 @@ pub fn from_header_native(retry: bool, same_ip: bool, same_port: bool, age: u16,
         4
     }
 }
+
+/// Native replay body for the E2 query `e2_bloom_filter_check_and_insert` (C14), through the public
+/// `TokenLog` interface of the real `BloomTokenLog` with a small memory budget (so that the hash set is
+/// converted to a bloom filter after a few dozen tokens): `n` distinct tokens expiring in one period are
+/// presented once, then every one of them a second time.  No token may be accepted twice (a bloom filter
+/// has false positives, never false negatives).  Only built when quinn-proto's `bloom` feature is on (the
+/// replay workspace turns it on; the Kani workspace does not use this body).
+pub fn bloom_replay_native(n: u16, budget: u16) -> u32 {
+    #[cfg(feature = "bloom")]
+    {
+        let log = crate::BloomTokenLog::new_expected_items(budget as usize, 100);
+        let issued = UNIX_EPOCH + Duration::from_secs(1_000_000);
+        let lifetime = Duration::from_secs(3600);
+        let nonce = |i: u16| 0x9e37_79b9_7f4a_7c15_u128.wrapping_mul(i as u128 + 1);
+        let mut accepted = Vec::new();
+        for i in 0..n {
+            if log.check_and_insert(nonce(i), issued, lifetime).is_ok() {
+                accepted.push(i);
+            }
+        }
+        assert!(n == 0 || !accepted.is_empty(), "no token at all was accepted");
+        let again = accepted.iter().filter(|&&i| log.check_and_insert(nonce(i), issued, lifetime).is_ok()).count();
+        assert!(again == 0, "{} of {} already-used tokens were accepted a second time", again, accepted.len());
+        1
+    }
+    #[cfg(not(feature = "bloom"))]
+    {
+        let _ = (n, budget);
+        0
+    }
+}
